@@ -1274,13 +1274,16 @@ public:
     explicit operator Integer() const
     {
         auto this_view = get_storage_view();
-        Integer x = 0;
+        uint64_t x = 0;
         if (this_view.size() > 0)
         {
-            x = static_cast<Integer>(this_view[0]);
+            x = static_cast<uint64_t>(this_view[0]);
         }
-
-        return is_negative() ? x*(-1) : x;
+        if (is_negative())
+        {
+            x = uint64_t(0) - x; // negate in unsigned arithmetic: the magnitude 2^63 has no positive signed counterpart
+        }
+        return static_cast<Integer>(x);
     }
 
     explicit operator double() const
